@@ -66,6 +66,7 @@ func HResidue() []string {
 	return []string{
 		"upk:" + H(wa[:len(wa)-3]), "upk:" + H(wa[:len(wa)-12]), "upk:" + H(wa[:len(wa)-20]),
 		"set:55:" + hxs("0a02hi0b9"), "set:55:" + hxs("0a02hizz"), "set:60:" + hxs("n105x3ab"), "set:60:" + hxs("n105x3abcp19"),
+		"set:60:" + hxs("n106x1ay5b"), // fails inside n1 AFTER n1.x was stored: n1 holds a subfield, 60 marks nothing
 		"mar:55:c(kv(0a,s(" + hxs("ok") + ")),kv(0b,s(" + hxs("bad") + ")))",
 	}
 }
@@ -74,7 +75,7 @@ func HForget() []string {
 	_, b := HMessages()
 	return []string{"upk:" + HMessageMin(), "upk:" + b,
 		// SetBytes of a composite field with a valid body that lacks the nested composite / the other subfield
-		"set:60:" + hxs("p102ok"), "set:55:" + hxs("0b17")}
+		"set:60:" + hxs("p12ok"), "set:55:" + hxs("0b17")}
 }
 
 // HCachedBitmap: histories in which the bitmap object is cached (a Pack, a Clone) BEFORE a JSON
